@@ -72,7 +72,7 @@ ARITH = ('add', 'sub', 'mul', 'div', 'mod', 'and', 'or', 'xor', 'asl', 'asr')
 
 class VM:
     def __init__(self, prog, max_steps=20000, timeout_ms=20000, addr_cap=16, monitor=None,
-                 sym_prefix='', stack_garbage=False, total_steps=None, deadline=None):
+                 sym_prefix='', stack_garbage=False, total_steps=None, deadline=None, max_paths=3000):
         self.P = prog
         self.T = Terms(prog.word)
         self.W = prog.word
@@ -81,6 +81,7 @@ class VM:
         self.max_steps = max_steps
         self.total_steps = total_steps
         self.deadline = deadline
+        self.max_paths = max_paths
         self.addr_cap = addr_cap
         self.mon = monitor
         self.sym_prefix = sym_prefix
@@ -310,6 +311,9 @@ class VM:
         while work:
             st, conds = work.pop()
             conds = list(conds)
+            if len(self.results) >= self.max_paths or (self.deadline is not None and time.time() > self.deadline):
+                self.results.append(Path('bound', conds, (), 'path/deadline budget of the run exhausted with %d pending states' % (len(work) + 1), None))
+                break
             try:
                 self.explore(st, conds, work)
             except Unspecified as e:
@@ -438,11 +442,16 @@ class VM:
                 snap = st.copy()
                 snap.pc = tgt
                 if tgt <= pc:
-                    key = (tgt, self.mem_key(st), st.nev)
+                    mk = self.mem_key(st)
+                    key = (tgt, mk, st.nev)
                     if key in st.seen:
                         res.append(Path('diverge', conds, st.ev, tgt, st.m))
                         return
-                    st.seen = st.seen | {key}
+                    if (tgt, mk) in st.seen:
+                        # same machine state, more output: the run repeats this output for ever
+                        res.append(Path('diverge-output', conds, st.ev, tgt, st.m))
+                        return
+                    st.seen = st.seen | {key, (tgt, mk)}
                     snap.seen = st.seen
                 st.choices = st.choices + (snap,)
                 st.pc = pc + 1
